@@ -601,8 +601,10 @@ def run(rep):
         jobs.append(('da', (n,)))
         jobs.append(('limits', (n,)))
     jobs.append(('cas', None))
-    jobs.append(('branch', None))
     obs, crashes = par.pmap(_dispatch, jobs)
+    # the recorded runs of the real entry points need the unpatched modules: run here, not in a worker that has installed
+    # the lifted functions and contract stubs for the symbolic jobs
+    obs += entry_branch_block(None)
     rep.extend(obs)
     if crashes:
         rep.crash = crashes[0]
